@@ -6,7 +6,11 @@ correspondence : the seven recurrence solvers (cg, cr, cgne, cgnr, bicgstab, ste
                  history entry, every callback iterate, returned x; tolerance 1e-9 relative because the
                  code works in binary64; decisions closer than 1e-6 to a threshold are skipped);
                  the GMRES family vs the Lean control model `gmresCtl` (inner/outer/restart counters)
-                 fed with the criterion evaluated on the iterates the code reported.
+                 fed with the criterion evaluated on the iterates the code reported; and (extension E16)
+                 gmres_mgs / gmres_householder / fgmres / gmres as complete runs vs the Lean models of
+                 Model/ExtC06Gmres.lean executed in binary64 (op ext_c06_gmres, real case): status, every
+                 entry of `residuals`, every callback iterate, x (tolerance 1e-8 relative; runs in which a
+                 decision falls within 1e-6 of its threshold or at rounding level are skipped and counted).
 search         : all eleven public solvers on real/complex well-conditioned systems n = 1..12 as dense
                  array / CSR / CSC / BSR / LinearOperator, with and without HPD preconditioner, every
                  documented criterion, x0 in {none, zero, random, large, exact, near-exact}, zero b,
@@ -15,6 +19,18 @@ search         : all eleven public solvers on real/complex well-conditioned syst
                  callback count, last callback is the returned x, prefix runs with maxiter = k return
                  callback iterate k, inputs byte-identical afterwards, results independent of whether
                  residuals/callback are passed).
+                 wave 4: (a) the same option grid with right-hand sides / start residuals b - A x0 that contain
+                 exact zeros (c e_k, zero first entry, zero leading / trailing block, sparse; x0 omitted, zero or
+                 integer with b = A x0 + v), plus scaled cyclic shifts (zero diagonal) for the GMRES family;
+                 (b) long runs n = 42..110 on ill-conditioned systems (1-D Poisson / convection-diffusion, diagonally
+                 rescaled, prescribed spectrum 1..1e3), preconditioner != I, tol 1e-13/1e-14 and maxiter in
+                 {48..51, 56, 57, 100, 101, 104, 105} resp. restart/maxiter around 40 / n, so that the rarely taken
+                 residual updates (recomputed every 8th iteration in cg/cr/cgne/cgnr, by recurrence every 50th in
+                 steepest_descent/minimal_residual),
+                 the restart boundaries and the min(n, 40) default are reached without convergence; every history
+                 entry is compared with the recomputed (preconditioned where documented) residual norm of the
+                 callback iterate (tolerance 1e-6 relative + 1e-11 scaled; observed on the pinned tree <= 1e-5 of
+                 that tolerance).
 """
 import hashlib
 import time
@@ -24,29 +40,34 @@ import numpy as np
 import scipy.sparse as sp
 from scipy.sparse.linalg import LinearOperator
 
-from common import enc_rats, enc_crats, dec_list, dec_rat, dec_crat
+from common import enc_rats, enc_crats, dec_list, dec_rat, dec_crat, float_bits
 
 META = {
     'rule': 'case = (solver, criterion, real/complex, operator kind of A and M, x0 kind, tol, maxiter, restart, matrix); '
             'matrices: HPD (integer Q Q^H + cI, random, 1-D Poisson, complex phase-rotated) for cg/cr/steepest_descent/'
             'minimal_residual, additionally nonsymmetric diagonally dominant for cgne/cgnr/bicgstab/GMRES, n = 1..12; '
             'non-trivial = the solver performed at least one iteration or had to recognise a converged x0 / zero b; '
-            'distinct = distinct (solver, options, input) tuples',
+            'distinct = distinct (solver, options, input) tuples; wave 4 adds b / start residuals with exact zeros (unit vectors, '
+            'zero leading / trailing entries, sparse) for every solver and long non-converging runs (n = 42..110, condition '
+            '1e3..1e5, M != I, maxiter around the multiples of the recompute intervals 8 and 50, GMRES restart / min(n,40))',
     'search_only': [
         'x finite for finite nonsingular input (floating point, outside the exact-field models)',
         'A, b, x0, M not modified (byte comparison before/after; arrays behind sparse matrices and LinearOperators included)',
-        'GMRES family numerics: history entry k equals the (preconditioned) residual norm of callback iterate k, callback '
-        'iterate k equals the x returned with maxiter = k (dense oracle, tolerance); only the inner/outer/restart control '
-        'flow is modelled in Lean (gmres_control_spec)',
+        'GMRES family in complex arithmetic and with reorth=True, the stagnation exit (an abstract predicate in the models), '
+        'callback iterate k equals the x returned with maxiter = k: dense oracle, tolerance (the real-arithmetic runs are '
+        'modelled completely in Lean and proved truthful for an exact square root: gmres_mgs_truthful, '
+        'gmres_householder_truthful, fgmres_truthful and their _vec_ forms)',
         'the n == 1 shortcuts of bicgstab and the GMRES family (known findings) are outside the solver theorems',
         'LinearOperator / sparse-format / column-vector handling of make_system; results independent of whether '
         'residuals / callback are passed',
     ],
     'partial': [
         'gmres_control_spec: decides status/counter/history-length clauses of gmres_mgs, gmres_householder, fgmres and the '
-        'dispatcher from the control flow alone (status 0 is returned only after the explicitly recomputed residual passed); '
-        'that the Givens estimate recorded for inner iterations equals the residual norm of the iterate handed to the '
-        'callback (Arnoldi/Givens invariant) is not formalised',
+        'dispatcher from the control flow alone (status 0 is returned only after the explicitly recomputed residual passed)',
+        'gmres_mgs_truthful / gmres_householder_truthful / fgmres_truthful (extension E16): all C06 clauses for the complete '
+        'executable models, including "the recorded Givens estimate |g[inner+1]| is the residual norm of the iterate handed '
+        'to the callback" (Arnoldi/Givens invariant, no breakdown hypothesis), in exact arithmetic with an exact square '
+        'root, real scalars, threshold tol*||Mb|| > 0; binary64 and complex runs are compared / searched, not proved',
         'cgnr_truthful is stated for the criterion the code tests (M A^H r for MrMr / rMr), see known finding '
         'cgnr-normal-residual-criterion',
     ],
@@ -56,6 +77,8 @@ META = {
         'status 0 => criterion is judged with slack 1e-8*threshold + 1e-13*(|A|_F max(|x|,|x0|) + |b|)|M|_F for the drift of '
         'recursively updated residuals; history entries with 1e-6 relative + 1e-11 absolute (scaled)',
         'the preconditioner is Hermitian positive definite, the systems are well conditioned (condition number <= ~100)',
+        'complete GMRES models (ext_c06_gmres) are executed in binary64 like the code: agreement to 1e-8 relative (x, callback '
+        'iterates) resp. 1e-8*(entry + initial residual) + 1e-11*scale (history); the stagnation test is evaluated on x_new - x_old',
     ],
 }
 
@@ -149,9 +172,9 @@ def gen_precond(rng, Ad, cplx, exact):
     return np.diag(rng.uniform(0.5, 2.0, size=n)).astype(Ad.dtype), 'diag'
 
 
-def make_case(rng, solver, exact=False, nmax=12):
+def make_case(rng, solver, exact=False, nmax=12, cplx=None):
     """one input; `exact`: integer/dyadic data, small n, few iterations (cheap for the rational models)"""
-    cplx = bool(rng.integers(0, 2))
+    cplx = bool(rng.integers(0, 2)) if cplx is None else cplx
     n = int(rng.integers(1, ((4 if cplx else 5) if exact else nmax) + 1))
     if rng.random() < 0.08:
         n = 1
@@ -694,7 +717,7 @@ def gmres_ctl_part(ctx, count, nmax=8):
             stag[-1] = '1'
         b = ''.join(bits) or '0'
         opt = lambda v: '_' if v is None else str(v)
-        line = (f'c06_gctl {1 if s == "fgmres" else 0} {o.n} {opt(case["restart"])} {opt(case["maxiter"])} '
+        line = (f'c06_gctl 0 {o.n} {opt(case["restart"])} {opt(case["maxiter"])} '
                 f'{1 if v0 < thr0 else 0} {b} {b} {"".join(stag) or "0"}')
         items.append((line, case, o, out))
     replies = ctx.lean([it[0] for it in items])
@@ -716,6 +739,267 @@ def gmres_ctl_part(ctx, count, nmax=8):
             ctx.corr('c06_gctl', {'case': case, 'line': line}, f'(status, callbacks, residual entries) = {model}', f'{impl}')
 
 
+def _fbits(v):
+    return ','.join(str(float_bits(t)) for t in np.asarray(v, dtype=float).ravel())
+
+
+def _unbits(tok):
+    import struct
+    if tok == '-':
+        return np.zeros(0)
+    return np.array([struct.unpack('<d', struct.pack('<Q', int(t)))[0] for t in tok.split(',')])
+
+
+def gmres_full_part(ctx, count, nmax=8):
+    """GMRES family, complete runs (extension E16): status, iteration count, every entry of `residuals`, every callback
+    iterate and the returned x vs the Lean models of Model/ExtC06Gmres.lean run in binary64 (op ext_c06_gmres); real case"""
+    rng = ctx.np_rng
+    kinds = {'gmres_mgs': 'mgs', 'gmres_householder': 'hh', 'fgmres': 'fg'}
+    items = []
+    for t in range(count):
+        s = GM[t % len(GM)]
+        case = make_case(rng, s, exact=False, nmax=nmax, cplx=False)
+        if rng.random() < 0.35:
+            case['tol'] = float(rng.choice([0.5, 0.1, 1e-2, 1e-3]))      # early inner exits and several cycles
+            case['default_tol'] = False
+        o, out, V = check_case(ctx, case, extra=False)
+        if 'exc' in out or not np.all(np.isfinite(out['x'])):
+            continue
+        kind = kinds.get(s) or ('mgs' if case['orthog'] == 'mgs' else 'hh')
+        Md = np.eye(o.n) if o.Md is None else o.Md
+        tol = 1e-5 if case.get('default_tol') else case['tol']
+        opt = lambda v: '_' if v is None else str(v)
+        line = (f'ext_c06_gmres {kind} {";".join(_fbits(r) for r in o.Ad.real)} {";".join(_fbits(r) for r in Md.real)} '
+                f'{_fbits(o.b.real)} {_fbits(x0_vec(o).real)} {float_bits(tol)} {opt(case["restart"])} {opt(case["maxiter"])}')
+        items.append((line, case, o, out, kind))
+    replies = ctx.lean([it[0] for it in items])
+    for (line, case, o, out, kind), rep in zip(items, replies):
+        ctx.feat('model:gmres-full-' + kind)
+        x, info, res, cbs = out['x'].ravel().real, int(out['info']), out['res'], [c.ravel().real for c in out['cbs']]
+        pub = {'case': case, 'line': line[:300]}
+        if rep == 'short':
+            if not (o.n == 1 and info == 0 and not cbs and len(res) == (2 if case['prefill'] else 0)):
+                ctx.corr('ext_c06_gmres', pub, 'n == 1 shortcut / rejected', f'status {info}, {len(res)} residuals, {len(cbs)} callbacks')
+            continue
+        p = rep.split(' ')
+        if len(p) != 5:
+            ctx.corr('ext_c06_gmres', pub, rep[:200], 'unparsable reply')
+            continue
+        mstatus, mhist, mx = int(p[0]), _unbits(p[2]), _unbits(p[3])
+        mlog = [] if p[4] == '-' else [_unbits(v) for v in p[4].split(';')]
+        impl = f'status {info}, {len(res)} residuals, {len(cbs)} callbacks, x {x[:4]}'
+        model = f'status {mstatus}, {len(mhist)} residuals, {len(mlog)} callbacks, x {mx[:4]}'
+        if not (mstatus == info and len(mhist) == len(res) and len(mlog) == len(cbs)):
+            # a decision (early exit, convergence, stagnation) taken at rounding level / next to its threshold?
+            near = False
+            _, thr, sc = criterion(case, o, x)
+            for h in list(res) + [float(v) for v in mhist]:
+                near |= (not np.isfinite(h)) or abs(h - thr) <= 1e-6 * thr + 1e-11 * sc
+            its = [x0_vec(o).real] + cbs
+            for a, c in zip(its, its[1:]):
+                nz = c != 0
+                if nz.any() and float(np.max(np.abs((c - a)[nz] / c[nz]))) < 1e-10:
+                    near = True                  # the stagnation exit (relative update below 1e-12) is in reach
+            its = [x0_vec(o).real] + mlog
+            for a, c in zip(its, its[1:]):
+                nz = c != 0
+                if np.all(np.isfinite(c)) and nz.any() and float(np.max(np.abs((c - a)[nz] / c[nz]))) < 1e-10:
+                    near = True
+            if near:
+                ctx.near_skipped += 1
+                ctx.feat('gmres-full-near-skipped')
+                continue
+            ctx.corr('ext_c06_gmres ' + kind, pub, model, impl, 'status / history length / callback count')
+            continue
+        sc = float(np.max(np.abs(x))) + float(np.max(np.abs(x0_vec(o)))) + 1e-300
+        bad = None
+        if not np.all(np.isfinite(mx)) or np.max(np.abs(mx - x)) > 1e-8 * sc:
+            bad = f'x differs by {float(np.max(np.abs(mx - x))):.3g}'
+        for k, (a, c) in enumerate(zip(mlog, cbs)):
+            if bad is None and (not np.all(np.isfinite(a)) or np.max(np.abs(a - c)) > 1e-8 * sc):
+                bad = f'callback iterate {k + 1} differs by {float(np.max(np.abs(a - c))):.3g}'
+        hs = hist_value(case, o, x)[1]
+        r0 = res[0] if res else 0.0
+        for k, (a, c) in enumerate(zip(mhist, res)):
+            if bad is None and not abs(a - c) <= 1e-8 * (abs(c) + r0) + 1e-11 * hs:
+                bad = f'residual entry {k}: model {a:.10g}, code {c:.10g}'
+        ctx.rel_err(float(np.max(np.abs(mx - x))) / sc)
+        ctx.feat('gmres-full-entries', len(res))
+        ctx.feat(f'gmres-full-compared:status {"0" if info == 0 else "maxiter" if info > 0 else "-1"}')
+        if bad:
+            ctx.corr('ext_c06_gmres ' + kind, pub, model, impl, bad)
+            # a disagreement is not yet a violation: the property oracle already judged this very run in check_case
+
+
+# ------------------------------------------------------------------------------------------------
+# wave 4: exact zeros in b / in the start residual (all solvers); long runs across the
+#         "every k-th iteration" branches
+# ------------------------------------------------------------------------------------------------
+
+# every-k-th-iteration branches of pyamg/krylov (read from the sources):
+#   cg, cr, cgne, cgnr            recompute_r = 8 : residual of iterate k recomputed from x when k % 8 == 1, by recurrence otherwise
+#   steepest_descent, minimal_residual  recompute_r = 50 : residual of iterate k by recurrence when k % 50 == 0, recomputed otherwise
+#   bicgstab                      none (recurrence only)
+#   gmres_mgs / gmres_householder / fgmres  restart boundary (explicit residual, new Householder/Arnoldi start vector),
+#                                 last inner iteration of a cycle (inner == max_inner - 1), inner == n - 1,
+#                                 maxiter=None -> min(n, 40) (only visible for n > 40), restart > n -> n
+INTERVAL = {'cg': 8, 'cr': 8, 'cgne': 8, 'cgnr': 8, 'steepest_descent': 50, 'minimal_residual': 50}
+STRUCT_KINDS = ['unit', 'unit', 'first0', 'lead0', 'trail0', 'sparse']
+
+
+def _svec(rng, n, cplx, kind):
+    """vector with exact zeros: c e_k / zero first entry / zero leading block / zero trailing block / sparse"""
+    v = _rint(rng, n, 1, 3, cplx) * rng.choice([-1.0, 1.0], size=n)
+    if rng.random() < 0.3:
+        v = v * float(rng.choice([0.375, 1e-3, 2.0 ** 10]))
+    if n == 1:
+        return v, 'unit'
+    if kind == 'unit':
+        k = int([0, n - 1, 1, int(rng.integers(0, n))][int(rng.integers(0, 4))])
+        e = np.zeros(n, dtype=v.dtype)
+        e[k] = v[k]
+        return e, 'unit'
+    if kind == 'first0':
+        v[0] = 0
+    elif kind == 'lead0':
+        v[:int(rng.integers(1, n))] = 0
+    elif kind == 'trail0':
+        v[n - int(rng.integers(1, n)):] = 0
+    else:
+        keep = rng.random(n) < 0.35
+        keep[int(rng.integers(0, n))] = True
+        keep[(int(np.flatnonzero(keep)[0]) + 1 + int(rng.integers(0, n - 1))) % n] = False
+        v[~keep] = 0
+    return v, kind
+
+
+def structure_case(rng, case):
+    """replace b / x0 of a case of make_case: b (x0 omitted or zero) or the start residual b - A x0 has exact zeros"""
+    cplx, n, s = case['cplx'], case['n'], case['solver']
+    Ad = np.atleast_2d(_dec(case['A'], cplx))
+    if s in GM and n >= 3 and rng.random() < 0.12:
+        # scaled cyclic shift (+ multiple of I): unitary up to scale, zero diagonal -> <v, A v> = 0 for a unit start vector
+        c = float(rng.choice([1.0, -2.0, 0.5]))
+        Ad = (c * np.roll(np.eye(n), 1, axis=0) + float(rng.choice([0.0, 0.0, 0.5])) * c * np.eye(n)).astype(Ad.dtype)
+        if cplx and rng.random() < 0.5:
+            Ad = Ad * 1j
+        case['A'], case['fam'] = _enc(Ad), 'shift'
+    v, kind = _svec(rng, n, cplx, STRUCT_KINDS[int(rng.integers(0, len(STRUCT_KINDS)))])
+    v = v.astype(Ad.dtype)
+    if rng.random() < 0.6:
+        where, b = 'b', v
+        x0 = None if rng.random() < 0.6 else np.zeros(n, dtype=Ad.dtype)
+    else:
+        where = 'r0'
+        x0 = (_rint(rng, n, -3, 3, cplx) * float(rng.choice([1.0, 1.0, 0.5, 64.0]))).astype(Ad.dtype)
+        b = Ad @ x0 + v                       # exact for the integer / dyadic families: r0 == v bit for bit
+    case['b'], case['x0'] = _enc(b), None if x0 is None else _enc(x0)
+    case['xkind'] = f'struct-{where}-{kind}'
+    return case
+
+
+def struct_part(ctx, count, nmax=12):
+    rng = ctx.np_rng
+    for t in range(count):
+        s = ALL[t % len(ALL)]
+        case = make_case(rng, s, exact=bool(rng.random() < 0.5), nmax=nmax)
+        # (bicgstab on small-integer matrices with unit start residuals reaches the exact breakdown <r*, r_k> = 0: it used to
+        # return NaN, repaired in /repo -- breakdown exit with status -1 -- and is part of the generator)
+        o, out, V = check_case(ctx, structure_case(rng, case))
+        if 'exc' not in out and o.n > 1:
+            r0 = o.b - o.Ad @ x0_vec(o)
+            ctx.feat('struct: start residual with exact zero ' + ('first entry' if r0[0] == 0 else 'entries' if np.any(r0 == 0) else '-- none (rounding)'))
+
+
+def make_long_case(rng, solver):
+    """n = 42..110, condition number 1e3..1e5, tiny tol: the run does not converge before the iteration limit"""
+    gm = solver in GM
+    cplx = bool(rng.random() < 0.35)
+    n = int(rng.integers(42, 65)) if gm else int(rng.integers(78, 111))
+    hpd = solver in NEEDS_HPD or rng.random() < 0.3
+    k = int(rng.integers(0, 3))
+    if k < 2:
+        A = 2 * np.eye(n) - np.eye(n, k=1) - np.eye(n, k=-1)
+        fam = 'long-poisson1d'
+        if not hpd:
+            A = A + float(rng.choice([0.25, 0.5])) * (np.eye(n, k=1) - np.eye(n, k=-1))
+            fam = 'long-convdiff'
+        if k == 1:
+            d = rng.uniform(0.5, 2.0, n)
+            A, fam = d[:, None] * A * d[None, :], fam + '-scaled'
+        if cplx:
+            ph = np.exp(2j * np.pi * rng.random(n))
+            A = (ph[:, None] * A) * ph.conj()[None, :]
+    else:
+        def orth():
+            return np.linalg.qr(rng.standard_normal((n, n)) + (1j * rng.standard_normal((n, n)) if cplx else 0))[0]
+        U = orth()
+        sv = np.logspace(0, float(rng.choice([2.0, 3.0])), n)
+        A, fam = ((U * sv) @ U.conj().T, 'long-spectrum-hpd') if hpd else ((U * sv) @ orth().conj().T, 'long-spectrum')
+        if hpd:
+            A = (A + A.conj().T) / 2
+    A = A.astype(complex if cplx else float)
+    crit = CRITS[solver][int(rng.integers(0, len(CRITS[solver])))]
+    mk = str(rng.choice(['none', 'dense', 'csr', 'linop']))
+    Md, mfam = None, 'none'
+    if mk != 'none':
+        j = int(rng.integers(0, 3))
+        if j == 0:
+            Md, mfam = np.diag(1.0 / np.abs(np.diag(A))).astype(A.dtype), 'jacobi'
+        elif j == 1:
+            Md, mfam = np.diag(rng.uniform(0.5, 2.0, size=n)).astype(A.dtype), 'diag'
+        else:
+            S = rng.standard_normal((n, 3)) + (1j * rng.standard_normal((n, 3)) if cplx else 0)
+            Md, mfam = (np.eye(n) + 0.3 * (S @ S.conj().T)).astype(A.dtype), 'near-id'
+        sc = float(rng.choice([0.0625, 1.0, 1.0, 16.0]))
+        if sc != 1.0:
+            Md, mfam = Md * sc, mfam + '*s'
+    xs = rng.standard_normal(n) + (1j * rng.standard_normal(n) if cplx else 0)
+    b, x0, xk = A @ xs, None, 'none'
+    u = rng.random()
+    if u < 0.2:
+        b = np.zeros(n, dtype=A.dtype)
+        b[int(rng.integers(0, n))], xk = 1.0, 'struct-b-unit'
+    elif u < 0.55:
+        x0, xk = rng.standard_normal(n) + (1j * rng.standard_normal(n) if cplx else 0), 'random'
+    case = {'solver': solver, 'crit': crit, 'cplx': cplx, 'n': n, 'fam': fam, 'A': _enc(A), 'b': _enc(b),
+            'x0': None if x0 is None else _enc(x0), 'M': None if Md is None else _enc(Md),
+            'akind': str(rng.choice(['dense', 'csr', 'csr', 'linop'])) if crit != 'rr+' else 'csr', 'mkind': mk,
+            'mfam': mfam, 'xkind': xk, 'bcol': False, 'tol': float(rng.choice([1e-13, 1e-14])), 'maxiter': None,
+            'prefill': False, 'x0col': False, 'restart': None, 'restrt': False, 'orthog': None, 'default_tol': False}
+    if gm:
+        r, mi = [(None, None), (None, 39), (None, 40), (None, 41), (None, n), (None, n + 1), (7, 8), (8, 7), (10, 5), (25, 2),
+                 (40, 2), (49, 1), (n + 3, 1)][int(rng.integers(0, 13))]
+        case['restart'], case['maxiter'] = r, mi
+        if solver == 'gmres':
+            case['orthog'] = str(rng.choice(['householder', 'mgs']))
+    elif INTERVAL.get(solver) == 8:
+        case['maxiter'] = int(rng.choice([48, 49, 50, 51, 56, 57, 100, 101, 104, 105]))
+    else:
+        case['maxiter'] = int(rng.choice([49, 50, 50, 51, 100, 100, 101]))
+    return case
+
+
+def long_part(ctx, count):
+    rng = ctx.np_rng
+    for t in range(count):
+        s = ALL[t % len(ALL)]
+        case = make_long_case(rng, s)
+        o, out, V = check_case(ctx, case)
+        if 'exc' in out:
+            continue
+        ncb, iv = len(out['cbs']), INTERVAL.get(s)
+        ctx.feat('long: iterations', ncb)
+        if iv:
+            off = 1 if iv == 8 else 0         # iterates whose residual comes from the rarely taken branch: k % iv == off
+            ctx.feat(f'long: {s} entries k = {off} mod {iv} (the rarely taken residual update) compared',
+                     (ncb - off) // iv + off if (len(out['res']) == ncb + 1 and ncb) else 0)
+            if ncb and ncb % iv == off:
+                ctx.feat(f'long: {s} stopped at k = {off} mod {iv}')
+        elif s in GM and case['restart']:
+            ctx.feat('long: restart cycles', -(-ncb // min(case['restart'], o.n)))
+
+
 # ------------------------------------------------------------------------------------------------
 # entry points
 # ------------------------------------------------------------------------------------------------
@@ -723,11 +1007,19 @@ def gmres_ctl_part(ctx, count, nmax=8):
 def run(ctx):
     model_part(ctx, ctx.scale(700, 8000))
     gmres_ctl_part(ctx, ctx.scale(300, 4000))
+    reserve = 20 if ctx.quick else 300               # time kept for the parts below
+    ctx.budget_s -= reserve
     search_part(ctx, ctx.scale(4400, 99000))
+    ctx.budget_s += reserve
+    gmres_full_part(ctx, ctx.scale(300, 4000))      # last: the random stream of the parts above is the one of earlier rounds
+    struct_part(ctx, ctx.scale(1100, 30000))        # wave 4 (after the older parts for the same reason)
+    long_part(ctx, ctx.scale(176, 2200))
 
 
 def search(ctx):
     search_part(ctx, ctx.scale(3000, 20000))
+    struct_part(ctx, ctx.scale(2000, 20000))
+    long_part(ctx, ctx.scale(220, 1100))
 
 
 def replay(ctx, data):
